@@ -170,7 +170,8 @@ TEXTS["C05"] = {
     "text": "Proved on the model of BeginMultiTXs / changeMultiTxStatus / Report for every ledger, group and child, against the FSM table regenerated from transaction_manager.go: the global state becomes SUCCESS only when every recorded "
             "child is SUCCESS and their number is the declared count (C05_global_success_needs_all); a group that left BEGIN without success can never become SUCCESS (C05_failed_group_never_succeeds); a failure receipt in BEGIN sets the "
             "group to BEGIN_FAILURE, the reporter to FAILURE and every other child, succeeded ones included, to BEGIN_FAILURE (C05_failure_receipt_flips_all); a child that cannot begin does the same and the notify lists are exactly "
-            "all earlier children (source) / the earlier succeeded children (destinations) (C05_begin_failure_flips_all, C05_report_failure_notifies). On the real node a protocol monitor written from the property text follows every group "
+            "all earlier children (source) / the earlier succeeded children (destinations) (C05_begin_failure_flips_all, C05_report_failure_notifies). History level (Proofs/ExecGlob.lean: only BeginMultiTXs of the group itself and Report "
+            "of one of its children write global-tx-<gid>): over ANY sequence of handled IBTPs a group whose global state is neither BEGIN nor SUCCESS stays so (C05_history_failed_group_stays_failed). On the real node a protocol monitor written from the property text follows every group "
             "through receipts, status queries, the stored group record (q gtx: global state and every child state, also compared with the model) and the per-block multi-tx / timeout metadata; receipts for group children include repeated reports and the "
             "failure / rollback acknowledgements sent after the group has failed. Four defects repaired by fix: commits (destinations never told on a failure receipt; all children filed under the first child's chain; notify "
             "lists and timed-out children in Go map order).",
